@@ -1,0 +1,10 @@
+//go:build verif
+// +build verif
+
+package util
+
+// VerifParseAllowIps is the unexported parseAllowIps of this package (the
+// comma-separated form that no code calls; verification hook for property C35).
+func VerifParseAllowIps(allowIpsStr string) ([]IPInfo, error) {
+	return parseAllowIps(allowIpsStr)
+}
